@@ -43,6 +43,10 @@ pub enum Step {
 pub struct JoinTrace {
     pub hash_seed: u64,
     pub window_secs: u64,
+    /// fraction of a second added to the configured window (the join compares whole seconds, and the
+    /// stamps are whole seconds, so the reference join is the same)
+    #[serde(default)]
+    pub window_frac_ms: u64,
     pub cond: Cond,
     pub via_manager: bool,
     pub left: Vec<Ev>,
@@ -80,7 +84,7 @@ fn build_node(t: &JoinTrace) -> StreamJoinNode {
         "right".to_string(),
         JoinType::Inner,
         JoinStrategy::TimeWindow {
-            duration: Duration::from_secs(t.window_secs),
+            duration: Duration::from_millis(t.window_secs * 1000 + t.window_frac_ms),
         },
         Box::new(|e: &StreamEvent| match e.data.get("k") {
             Some(Value::String(s)) => Some(s.clone()),
@@ -105,7 +109,7 @@ fn mirror_node(t: &JoinTrace) -> StreamJoinNode {
         "right".to_string(),
         "left".to_string(),
         JoinType::Inner,
-        JoinStrategy::TimeWindow { duration: Duration::from_secs(t.window_secs) },
+        JoinStrategy::TimeWindow { duration: Duration::from_millis(t.window_secs * 1000 + t.window_frac_ms) },
         Box::new(|e: &StreamEvent| match e.data.get("k") {
             Some(Value::String(s)) => Some(s.clone()),
             _ => None,
@@ -521,9 +525,16 @@ impl World for JoinWorld {
             schedule.push(Step::Wm(wm));
         }
         let alt_merges = (0..3).map(|_| merge(rng)).collect();
+        // unit scale (swarm): the same history in seconds, minutes or hours
+        let scale = *rng.pick(&[1u64, 1, 1, 1, 60, 3600]);
+        let window_secs = window_secs * scale;
+        let scale_ev = |v: Vec<Ev>| -> Vec<Ev> { v.into_iter().map(|e| Ev { ts: e.ts * scale, ..e }).collect() };
+        let (left, right) = (scale_ev(left), scale_ev(right));
+        let schedule: Vec<Step> = schedule.into_iter().map(|s| if let Step::Wm(w) = s { Step::Wm(w * scale as i64) } else { s }).collect();
         JoinTrace {
             hash_seed,
             window_secs,
+            window_frac_ms: *rng.pick(&[0u64, 0, 0, 500, 999]),
             cond,
             via_manager: rng.chance(1, 2),
             left,
@@ -543,7 +554,13 @@ impl World for JoinWorld {
         obs.faulty = has_wm;
         let (em, required) = run_schedule(t, &t.schedule, Some(obs))?;
         // fingerprint
-        obs.fp_str(&format!("{:?}|{:?}|{:?}|{}|{:?}", t.left, t.right, t.schedule, t.window_secs, t.cond));
+        obs.fp_str(&format!("{:?}|{:?}|{:?}|{}|{}|{:?}", t.left, t.right, t.schedule, t.window_secs, t.window_frac_ms, t.cond));
+        if t.window_secs >= 60 {
+            obs.count("probe.window_of_a_minute_or_more");
+        }
+        if t.window_frac_ms != 0 {
+            obs.count("probe.window_with_a_fraction_of_a_second");
+        }
         obs.fp_str(&format!("{:?}", em.pairs));
         let kinds: Vec<bool> = t
             .schedule
@@ -636,6 +653,28 @@ impl World for JoinWorld {
             out.push(c);
         }
         let _ = drop_chunks::<u8>;
+        if t.window_frac_ms != 0 {
+            let mut c = t.clone();
+            c.window_frac_ms = 0;
+            out.push(c);
+        }
+        // the whole history in a smaller unit
+        for k in [3600u64, 60] {
+            let wms = |s: &Step| if let Step::Wm(w) = s { *w % k as i64 == 0 } else { true };
+            if t.window_secs % k == 0 && t.left.iter().chain(&t.right).all(|e| e.ts % k == 0) && t.schedule.iter().all(wms) && (t.window_secs > 0 || t.left.iter().chain(&t.right).any(|e| e.ts > 0)) {
+                let mut c = t.clone();
+                c.window_secs /= k;
+                for e in c.left.iter_mut().chain(c.right.iter_mut()) {
+                    e.ts /= k;
+                }
+                for s in c.schedule.iter_mut() {
+                    if let Step::Wm(w) = s {
+                        *w /= k as i64;
+                    }
+                }
+                out.insert(0, c);
+            }
+        }
         if t.via_manager {
             let mut c = t.clone();
             c.via_manager = false;
